@@ -1,5 +1,6 @@
 import AptMirror.Model.Index
 import AptMirror.Lemmas.Index
+import AptMirror.Lemmas.Sources
 /-!
 # C09 — Packages/Sources parsing and package filters match the Debian index format
 
@@ -16,9 +17,13 @@ the machines agree with the stanza semantics, and for Packages indices the whole
 separators and missing final newline) — exact field-name recognition by the `startswith(b"<Name>:")` tests (so fields whose
 names are prefixes or extensions of the interesting ones are inert), value extraction from a rendered field line, the effect
 of a blank line (flush of exactly the (path, size) of the stanza, then reset), the synthetic final blank line, filter and
-ignore_errors semantics.  The corresponding refinement for Sources indices (hash-section tracking, file lines) is checked three-way by the harness
-(real parsers / model / independent stanza-based reference) and is **not** proved (partial); neither is the byte-level
-`splitLines`/decompression/mmap layer.
+ignore_errors semantics.  `C09_sources_refines` is the same refinement for Sources indices: the stanza is an abstract syntax
+tree (`Package`, `Directory`, the four checksum sections with their ` hash size name` entries, arbitrary other fields with
+continuation lines, including names that extend the interesting ones and any `Checksums-<other>`), the machine's section
+flag is shown to be on exactly inside the four sections, and every entry lands under the stanza's Directory.
+`C09_splitLines_render` ties the lines to the bytes: reading a text line by line (`readline` until empty) gives back exactly the
+lines it was rendered from, with or without a final newline.  Decompression and mmap are library code and are exercised by
+the harness (three-way, all compressions, indices above the mmap threshold), not modelled.
 -/
 namespace AptMirror
 namespace Index
@@ -212,6 +217,125 @@ theorem C09_package_is_field (fs : List Field) (s' : PState) (h : specFields {} 
 theorem C09_packages_empty (flt : Filter) (ign : List Path) (pool : List PoolFile) :
     packagesMachine flt ign [] pool = .ok pool := by
   simp [packagesMachine, List.foldlM, packagesLine_blank, flush_empty, bind, Except.bind, pure, Except.pure]
+
+
+/-! ## Sources -/
+
+theorem specSources_blanks (flt : Filter) (ign : List Path) (sts : List SrcStanza) (last : SrcStanza) (k : Nat) (pool : List PoolFile) :
+    specSources flt ign (sts ++ [{ last with blanks := k }]) pool = specSources flt ign (sts ++ [last]) pool := by
+  simp [specSources, List.foldlM_append]
+
+/-- **C09 (Sources: the line machine computes the stanza-level meaning of the index).** For every sequence of Sources stanzas —
+    `Package`, `Directory`, any of the sections `Files` / `Checksums-Sha1|Sha256|Sha512` with their file entries, and any other
+    fields (multi-line, names that are prefixes or extensions of the interesting ones, `Checksums-<anything else>`) in any
+    order and any number, one or more blank lines between stanzas, any number after the last, last line with or without its
+    newline — `SourcesParser._do_parse_index` derives exactly: for each stanza that has a Package the source-name filters
+    allow and a (safe) Directory, one pool file per distinct (safe) file name of its sections, placed under the Directory, with
+    the size of its first entry.  A size that is no integer is the same error on both sides. -/
+theorem C09_sources_refines (flt : Filter) (ign : List Path) (sts : List SrcStanza) (last : SrcStanza)
+    (hb : ∀ st ∈ sts, 1 ≤ st.blanks) (hok : ∀ st ∈ sts ++ [last], ∀ f ∈ st.fields, f.OK) (pool : List PoolFile) :
+    sourcesMachine flt ign ((sts ++ [last]).flatMap SrcStanza.lines) pool = specSources flt ign (sts ++ [last]) pool := by
+  have hlines : (sts ++ [last]).flatMap SrcStanza.lines ++ [['\n']] =
+      (sts ++ [{ last with blanks := last.blanks + 1 }]).flatMap SrcStanza.lines := by
+    simp only [List.flatMap_append, List.flatMap_cons, List.flatMap_nil, List.append_nil, SrcStanza.lines, List.append_assoc]
+    congr 2
+    rw [List.replicate_succ']
+  unfold sourcesMachine
+  rw [hlines, sources_stanzas flt ign _ ?_ ?_ pool, specSources_blanks]
+  · cases specSources flt ign (sts ++ [last]) pool <;> rfl
+  · intro st hst
+    rcases List.mem_append.mp hst with h | h
+    · exact hb st h
+    · simp only [List.mem_singleton] at h; subst h; simp
+  · intro st hst f hf
+    rcases List.mem_append.mp hst with h | h
+    · exact hok st (List.mem_append_left _ h) f hf
+    · simp only [List.mem_singleton] at h; subst h
+      exact hok last (by simp) f hf
+
+/-- **C09 (a Sources stanza places each file under its Directory).** What the end of a stanza adds is, for every collected
+    file `(name, size)`, the pool file `Directory/name` with that size and the ignore mark of that full path — and nothing when
+    the stanza lacks a Package or a Directory or the source-name filter rejects it. -/
+theorem C09_sources_flush (flt : Filter) (ign : List Path) (a : SrcAcc) (pool : List PoolFile) :
+    srcFlush flt ign a pool =
+      match a.package, a.directory with
+      | some pkg, some dir =>
+        if pkg ≠ [] ∧ flt.allowed pkg none = true then
+          a.files.foldl (fun pl f =>
+            let full := if isAbsPath f.1 then f.1 else dir ++ f.1
+            putPool pl { path := full, size := f.2, ignoreErrors := shouldIgnore ign full }) pool
+        else pool
+      | _, _ => pool := by
+  unfold srcFlush
+  cases a.package with
+  | none => rfl
+  | some pkg =>
+    cases a.directory with
+    | none => rfl
+    | some dir =>
+      cases pkg with
+      | nil => simp
+      | cons c cs => cases h : flt.allowed (c :: cs) none <;> simp [h]
+
+/-- a line as `readline` returns it: a newline-free body and its newline -/
+def IsLine (l : S) : Prop := ∃ b, l = b ++ ['\n'] ∧ '\n' ∉ b
+
+theorem splitLines_go_body (b r cur : S) (acc : List S) (hb : '\n' ∉ b) :
+    splitLines.go cur acc (b ++ r) = splitLines.go (b.reverse ++ cur) acc r := by
+  induction b generalizing cur with
+  | nil => rfl
+  | cons c cs ih =>
+    have hc : c ≠ '\n' := fun e => hb (by rw [e]; exact List.mem_cons_self)
+    simp only [List.cons_append, splitLines.go, hc, if_false]
+    rw [ih (c :: cur) (fun hm => hb (List.mem_cons_of_mem _ hm))]
+    simp
+
+theorem splitLines_go_lines (ls : List S) (last : S) (acc : List S) (h : ∀ l ∈ ls, IsLine l) (hl : '\n' ∉ last) :
+    splitLines.go [] acc (ls.flatten ++ last) = acc.reverse ++ ls ++ (if last = [] then [] else [last]) := by
+  induction ls generalizing acc with
+  | nil =>
+    have := splitLines_go_body last [] [] acc hl
+    simp only [List.append_nil] at this
+    simp only [List.flatten_nil, List.nil_append, List.append_nil, this, splitLines.go]
+    cases last with
+    | nil => simp
+    | cons c cs => simp
+  | cons l ls ih =>
+    obtain ⟨b, rfl, hb⟩ := h l List.mem_cons_self
+    have e : ((b ++ ['\n']) :: ls).flatten ++ last = b ++ ('\n' :: (ls.flatten ++ last)) := by simp
+    rw [e, splitLines_go_body b _ [] acc hb]
+    simp only [List.append_nil, splitLines.go, if_true]
+    rw [ih _ (fun x hx => h x (List.mem_cons_of_mem _ hx))]
+    simp
+
+/-- **C09 (lines ↔ bytes).** Reading the concatenation of lines with `readline` until it returns nothing gives back
+    exactly those lines; a last line without its newline is returned as it is, and no empty line is invented at the end. -/
+theorem C09_splitLines_render (ls : List S) (last : S) (h : ∀ l ∈ ls, IsLine l) (hl : '\n' ∉ last) :
+    splitLines (ls.flatten ++ last) = ls ++ (if last = [] then [] else [last]) := by
+  have := splitLines_go_lines ls last [] h hl
+  simp only [List.reverse_nil, List.nil_append] at this
+  unfold splitLines
+  split
+  · rename_i heq
+    rw [heq] at this
+    simpa [splitLines.go] using this.symm
+  · exact this
+
+/-! ### non-vacuity of the Sources refinement -/
+private def sPkg : SrcField := .package "hello".toList ['\n']
+private def sDir : SrcField := .directory "pool/main/h/hello".toList ['\n']
+private def sFiles : SrcField := .sect .files [⟨"aa".toList, "10".toList, "hello_1.dsc".toList, ['\n']⟩, ⟨"bb".toList, "20".toList, "hello_1.tar.gz".toList, ['\n']⟩]
+private def sSha : SrcField := .sect .sha256 [⟨"cc".toList, "10".toList, "hello_1.dsc".toList, ['\n']⟩, ⟨"dd".toList, "7".toList, "../x".toList, []⟩]
+private def sOther : SrcField := .other { name := "Checksums-Md5x".toList, rest := [], cont := [("aa 1 qqq".toList, ['\n'])] }
+example : sPkg.OK := ⟨⟨by decide, by decide⟩, Or.inl rfl⟩
+example : sOther.OK := ⟨⟨by decide, 'C', "hecksums-Md5x".toList, by decide, by decide⟩, by decide, by decide, by decide, by decide⟩
+example : ((⟨[sOther, sFiles, sPkg, sDir, sSha], 0⟩ : SrcStanza).lines).flatten =
+    ("Checksums-Md5x:\n aa 1 qqq\nFiles:\n aa 10 hello_1.dsc\n bb 20 hello_1.tar.gz\nPackage: hello\nDirectory: pool/main/h/hello\n" ++
+     "Checksums-Sha256:\n cc 10 hello_1.dsc\n dd 7 ../x").toList := by decide +kernel
+example : (specSources noFilterR [] [⟨[sOther, sFiles, sPkg, sDir, sSha], 0⟩] []).toOption =
+    some [{ path := ["pool", "main", "h", "hello", "hello_1.dsc"], size := 10, ignoreErrors := false },
+          { path := ["pool", "main", "h", "hello", "hello_1.tar.gz"], size := 20, ignoreErrors := false }] := by decide +kernel
+example : splitLines "a\n\nb".toList = ["a\n".toList, "\n".toList, "b".toList] := by decide
 
 /-! ### non-vacuity of the refinement: the fields of the example below are well-formed and render to its lines -/
 private def fPkg : Field := { name := kPackage, rest := " a".toList }
